@@ -34,14 +34,25 @@ pub fn run(_args: &[String]) -> i32 {
         for credit_debit in [false, true] {
             for new_to_old in [false, true] {
                 for with_balance in [false, true] {
+                  // column layout: by label or by 1-based index; delimiter; preamble lines to skip (one of them blank)
+                  for (by_index, delim, skip_head) in [(false, ',', 0usize), (true, ',', 0), (false, ';', 0), (false, ',', 3), (true, '\t', 3)] {
+                    if (by_index || delim != ',' || skip_head != 0) && liability && credit_debit { continue; }
                     evaluated += 1;
                     let mut yaml = String::from("path: stmt.csv\nencoding: UTF-8\naccount: Acct:Main\n");
                     yaml.push_str(if liability { "account_type: liability\n" } else { "account_type: asset\n" });
                     yaml.push_str("commodity: CHF\nformat:\n  date: \"%Y-%m-%d\"\n");
                     if new_to_old { yaml.push_str("  row_order: new_to_old\n"); }
-                    yaml.push_str("  fields:\n    date: Date\n    payee: Text\n");
-                    if credit_debit { yaml.push_str("    credit: In\n    debit: Out\n"); } else { yaml.push_str("    amount: Amount\n"); }
-                    if with_balance { yaml.push_str("    balance: Balance\n"); }
+                    if delim != ',' { yaml.push_str(&format!("  delimiter: \"{}\"\n", if delim == '\t' { "\\t".to_string() } else { delim.to_string() })); }
+                    if skip_head > 0 { yaml.push_str(&format!("  skip:\n    head: {}\n", skip_head)); }
+                    if by_index {
+                        yaml.push_str("  fields:\n    date: 1\n    payee: 2\n");
+                        if credit_debit { yaml.push_str("    credit: 3\n    debit: 4\n"); } else { yaml.push_str("    amount: 3\n"); }
+                        if with_balance { yaml.push_str(&format!("    balance: {}\n", if credit_debit { 5 } else { 4 })); }
+                    } else {
+                        yaml.push_str("  fields:\n    date: Date\n    payee: Text\n");
+                        if credit_debit { yaml.push_str("    credit: In\n    debit: Out\n"); } else { yaml.push_str("    amount: Amount\n"); }
+                        if with_balance { yaml.push_str("    balance: Balance\n"); }
+                    }
                     yaml.push_str("rewrite:\n  - matcher:\n      payee: Migros\n    account: Expenses:Grocery\n");
                     // running balance of the account as booked: asset: opening 1000 + movement; liability with an `amount` column books -amount
                     let booked: Vec<Decimal> = rows.iter().map(|r| if liability && !credit_debit { -r.2 } else { r.2 }).collect();
@@ -67,6 +78,8 @@ pub fn run(_args: &[String]) -> i32 {
                     csv.push('\n');
                     csv.push_str(&lines.join("\n"));
                     csv.push('\n');
+                    if delim != ',' { csv = csv.replace(',', &delim.to_string()); }
+                    if skip_head > 0 { csv = format!("Okane Bank statement\nAccount 123-456\n\n{}", csv); }
                     let desc = format!("config:\n{}\ncsv:\n{}", yaml, csv);
                     let set = match import::config::load_from_yaml(yaml.as_bytes()) { Ok(s) => s, Err(e) => { bad.push((desc, format!("config rejected: {}", e))); continue; } };
                     let entry = match set.select(Path::new("stmt.csv")) { Ok(Some(e)) => e, _ => { bad.push((desc, "no config selected".into())); continue; } };
@@ -110,6 +123,7 @@ pub fn run(_args: &[String]) -> i32 {
                         }
                     };
                     if let Some(v) = verdict { bad.push((format!("{}\nimported ledger:\n{}", desc, ledger_text), v)); }
+                  }
                 }
             }
         }
